@@ -3,7 +3,7 @@ C04 statistics slice, lemmas part c: what the closed form MEANS and how it merge
   * the running sum equals the mathematical sum as long as the integer part cannot wrap (`absIntSum < 2^63`);
     for all-integer lists it is always `wrapS64` of the mathematical sum;
   * the min / max cells hold the least / greatest numeric value (attained, bounding);
-  * `mergeO (build xs) (build ys) = build (xs ++ ys)` under the no-wrap guard and the `IsNumeric` guard.
+  * `mergeO (build xs) (build ys) = build (xs ++ ys)` under the no-wrap guard (SegStats.Merge as fixed: IsNumeric is OR-ed).
 Core Lean only.
 -/
 import SigModel.Lemmas.C04Sb
@@ -355,13 +355,8 @@ theorem compat_cells (parse : Str → Option Rat) (vs : List Val) : Compat (minC
 
 /-! ### the merge of two closed forms -/
 
-/-- the guard under which `IsNumeric` survives SegStats.Merge: the left operand lacks the column, or has a number, or the
-right operand has none -/
-def NumFirst (parse : Str → Option Rat) (xs ys : List Val) : Prop :=
-  present xs = 0 ∨ nums parse xs ≠ [] ∨ nums parse ys = []
-
 theorem mergeO_build (parse : Str → Option Rat) (xs ys : List Val)
-    (hov : absIntSum (nums parse (xs ++ ys)) < 9223372036854775808) (hnf : NumFirst parse xs ys) :
+    (hov : absIntSum (nums parse (xs ++ ys)) < 9223372036854775808) :
     mergeO exact (build parse xs) (build parse ys) = build parse (xs ++ ys) := by
   by_cases hx : present xs = 0
   · obtain ⟨h1, h2, h3⟩ := of_present_zero parse xs hx
@@ -396,10 +391,10 @@ theorem mergeO_build (parse : Str → Option Rat) (xs ys : List Val)
       rw [present_append, nums_append, minCell_append, maxCell_append]
       by_cases ex : (nums parse xs).isEmpty
       · have exn : nums parse xs = [] := List.isEmpty_iff.mp ex
-        rcases hnf with h | h | h
-        · exact absurd h hx
-        · exact absurd exn h
-        · simp [exn, h, mergeNum]
+        by_cases ey : (nums parse ys).isEmpty
+        · have eyn : nums parse ys = [] := List.isEmpty_iff.mp ey
+          simp [exn, eyn, mergeNum]
+        · simp [exn, ey, mergeNum]
       · by_cases ey : (nums parse ys).isEmpty
         · have eyn : nums parse ys = [] := List.isEmpty_iff.mp ey
           simp [eyn, ex, mergeNum]
